@@ -407,6 +407,31 @@ func checkC06(c c06Case, rec *Rec) *Violation {
 			}
 		}
 		got := c06ClassOf(e.MatchRequest(rules.NewRequest(c06URL, c06Src, rules.TypeImage)).GetBasicResult())
+		// The referrer's host written with capital letters: patterns are applied case-insensitively, so the referrer
+		// candidates match as before; $domain values are compared with the source host as written, so request
+		// candidates that demand $domain=ref.com do not match this request (nor do their badfilter twins).
+		var reqCaps []string
+		for _, x := range c.Req {
+			positive := false
+			_, opts, _ := strings.Cut(x, "$")
+			for _, o := range strings.Split(opts, ",") {
+				if v, ok := strings.CutPrefix(o, "domain="); ok {
+					for _, d := range strings.Split(v, "|") {
+						if !strings.HasPrefix(d, "~") {
+							positive = true
+						}
+					}
+				}
+			}
+			if !positive {
+				reqCaps = append(reqCaps, x)
+			}
+		}
+		wantCaps := c06RefClass(reqCaps, src)
+		if g := c06ClassOf(e.MatchRequest(rules.NewRequest(c06URL, "http://REF.com/", rules.TypeImage)).GetBasicResult()); g != wantCaps {
+			cleanup()
+			return viol(id, c06Sig(c, "Engine.MatchRequest")+":referrer-in-capitals", "Engine.MatchRequest from referrer http://REF.com/ over lists %+v -> %s, reference class %s", lists, g, wantCaps)
+		}
 		if len(src) > 0 {
 			// a request of the referrer page to itself (URL == source URL): its own rules are the referrer candidates that
 			// are not document-only, its referrer rules are all referrer candidates
